@@ -376,7 +376,9 @@ class Parser(object):
         template = model.ScenarioOutline(self.filename, self.line, keyword, name,
                                          tags=self.tags)
         self.statement = template
-        self.scenario_container.add_scenario(template)
+        if self.scenario_container:
+            # -- HINT: No container exists if parse_scenario() is used.
+            self.scenario_container.add_scenario(template)
 
         # -- RESET STATE:
         self.tags = []
